@@ -1207,11 +1207,14 @@ class World:
                 # the same node
                 others = [x.ref for x in self.held
                           if x is not e and x.ref.node == e.ref.node]
-                via = others[(i >> 8) % len(others)] \
-                    if others and (i >> 7) & 1 else e.ref
-                if via is not e.ref:
+                if (i >> 7) & 1:
+                    via = others[(i >> 8) % len(others)] if others \
+                        else self._ar.Function(e.ref.node, self.A)
                     self.label('decref.through_another_handle')
+                else:
+                    via = e.ref
                 self.A.decref(via)
+                via = None
             else:
                 self.b.decref(e.ref)
             e.extra -= 1
